@@ -61,6 +61,7 @@ Inductive out :=
 | OApi (a : aid) (x : apiret)
 | ONewSession (r : rid) (s : sid)
 | OUnsupported                              (* a combination the model does not cover (disconnect from a synchronous handler) *)
+| OTie                                      (* several timers fell due at the same instant (reported under q_batch_timers only) *)
 | OOutOfFuel.
 
 (* ---- state ---- *)
@@ -335,8 +336,11 @@ Definition run_handler (me : tid) (background : bool) (i : sid) (payload : N) (a
     else emit OUnsupported ;;; ret false
   end.
 
-(* Socket.receive: false = EngineIOError (unknown packet type, or socket closed) *)
+(* Socket.receive: false = EngineIOError (unknown packet type, or socket closed).  Since the fix of D24 nothing is
+   dispatched for a session that has ended *)
 Definition receive (i : sid) (p : cpkt) : M bool :=
+  ss0 <- gsess i ;;
+  if s_closed ss0 then ret false else
   match p with
   | CPong => spawn (TPingStart i) ;;; ret true
   | CMsg payload a =>
@@ -457,9 +461,10 @@ Fixpoint svc_continue (fuel : nat) (me : tid) (rest : list sid) (interval : Z) :
 (* ---- the WebSocket session ---- *)
 Definition ws_take (c : cid) : M (option (option frame)) :=        (* None = must block; Some None = connection closed *)
   k <- gconn c ;;
+  if k_sclosed k then ret (Some None) else
   match k_inbox k with
   | f :: r => pconn c {| k_inbox := r; k_cclosed := k_cclosed k; k_sclosed := k_sclosed k; k_waiter := None |} ;;; ret (Some (Some f))
-  | [] => if k_cclosed k || k_sclosed k then ret (Some None) else ret None
+  | [] => if k_cclosed k then ret (Some None) else ret None
   end.
 Definition ws_block (me : tid) (c : cid) (k : task) : M unit :=
   x <- gconn c ;; pconn c {| k_inbox := k_inbox x; k_cclosed := k_cclosed x; k_sclosed := k_sclosed x; k_waiter := Some me |} ;;; block me k.
@@ -490,8 +495,10 @@ Fixpoint ws_read_loop (fuel : nat) (me : tid) (i : sid) (r : rid) (c : cid) (w :
     | Some (Some fr) =>
       match fr with
       | FOver | FUndec => ws_epilogue me i r c w fresh
-      | FPing _ => ws_read_loop f me i r c w fresh
-      | FPk CBad => ws_read_loop f me i r c w fresh
+      | FPing _ | FPk CBad =>
+        (* receive() raises UnknownPacketError, which the loop ignores - unless the session has ended (SocketIsClosedError) *)
+        ss <- gsess i ;;
+        if s_closed ss then ws_epilogue me i r c w fresh else ws_read_loop f me i r c w fresh
       | FPk p =>
         ok <- receive i p ;;
         if ok then ws_read_loop f me i r c w fresh else ws_epilogue me i r c w fresh
@@ -826,7 +833,10 @@ Fixpoint advance (fuel : nat) (target : Z) : M unit :=
     | Some (t, tm) =>
       if Z.leb (fst tm) target then
         modst (fun s => set_now (Z.max (now s) (fst tm)) s) ;;;
-        (if q_batch_timers (c_quirks cfg) then fire_all (due_at (fst tm) (tasks s) []) else fire t) ;;;
+        (if q_batch_timers (c_quirks cfg) then
+           let due := due_at (fst tm) (tasks s) [] in
+           (match due with _ :: _ :: _ => emit OTie | _ => ret tt end) ;;; fire_all due
+         else fire t) ;;;
         advance f target
       else modst (set_now target)
     | None => modst (set_now target)
